@@ -21,7 +21,7 @@ def run(ctx, path):
         recs = feed(ctx, binary, "breaker_replay", [json.dumps(body["history"])], dict(cfg=json.dumps(body["config"])))
         bad = [r for r in recs if r.get("k") == "mismatch"]
     elif "behaviour" in body and body["behaviour"]:                                     # sequential behaviour
-        recs = feed(ctx, binary, "seq_replay", [json.dumps(body["behaviour"])], dict(entries=4))
+        recs = feed(ctx, binary, "seq_replay", [json.dumps(body["behaviour"])], dict(entries=8))
         bad = [r for r in recs if r.get("k") == "mismatch"]
     elif "row" in body:                                                                 # classification row
         recs = feed(ctx, binary, "classify_rows", [json.dumps(body["row"])])
